@@ -227,8 +227,13 @@ def explore(name: str, fn, *, allowed_exc: tuple = (), max_paths: int = 20000, t
                     if [n for n, _ in con] != sym_ok:
                         res.divergences.append(f"check sequence differs sym={sym_ok} conc={[n for n, _ in con]} inputs={val}")
                     else:
-                        for (n, v) in con:
-                            if not v:
+                        # verdict of each symbolic check call (a call refuted on this path may stay false concretely)
+                        verdict_by_seq = {}
+                        for ch in c.checks:
+                            verdict_by_seq.setdefault(ch["seq"], ch["verdict"])
+                        verdicts = [verdict_by_seq[sq] for sq in sorted(verdict_by_seq)]
+                        for (n, v), vd in zip(con, verdicts):
+                            if not v and vd == "ok":
                                 res.divergences.append(f"clause {n} valid symbolically but false concretely; inputs={val}")
                                 break
                     so = [(n, _eval_under(model, v)) for n, v in c.observes]
